@@ -56,7 +56,6 @@ func (x *Run) allocObj(st *State, ty types.Type, zeroInit bool) string {
 	return ref
 }
 
-
 func (x *Run) fieldArr(ty types.Type, field int) string {
 	st, _ := structOf(ty)
 	name := fieldArrayName(ty, field)
